@@ -20,8 +20,8 @@
 (*   ${NAME:-default}); environments map the names to values that may      *)
 (*   themselves contain references.  Oracle = token-wise substitution,     *)
 (*   never re-expanded; Impl = transcription of the leftmost-first regular *)
-(*   expression scan  \$\{([^}]+)\}|\$([A-Za-z_][A-Za-z0-9_]*)  with the   *)
-(*   replacement function of the code.                                     *)
+(*   expression scan (braced form first, then dollar + identifier) with    *)
+(*   the replacement function of the code.                                 *)
 (***************************************************************************)
 EXTENDS Integers, Sequences, FiniteSets, TLC, Json
 
@@ -100,7 +100,7 @@ Tokens == {[k |-> "lit", name |-> "", s |-> l] : l \in Lits}
           \cup {[k |-> "ref", name |-> n, s |-> << >>] : n \in Names}
           \cup {[k |-> "bref", name |-> n, s |-> << >>] : n \in Names}
           \cup {[k |-> "bdef", name |-> n, s |-> d] : n \in Names, d \in Defaults}
-MaxToks == IF Wide THEN 4 ELSE 3
+MaxToks == 3
 
 \* environment: value of a name, or unset.  Values contain references themselves.
 Unset == [set |-> FALSE, v |-> << >>]
@@ -167,9 +167,9 @@ Scan(t, i, env, depth) ==
   IF i > Len(t) THEN << >>
   ELSE IF t[i] # "$" THEN <<t[i]>> \o Scan(t, i + 1, env, depth)
   ELSE LET c == IF i + 1 <= Len(t) /\ t[i + 1] = "{" THEN FirstClose(t, i + 2) ELSE 0 IN
-       IF c >= i + 3                                     \* \$\{([^}]+)\}
+       IF c >= i + 3                                     \* dollar, open brace, one or more non-brace-close characters, close brace
          THEN Replace(SubSeq(t, i, c), SubSeq(t, i + 2, c - 1), env, depth) \o Scan(t, c + 1, env, depth)
-       ELSE IF i + 1 <= Len(t) /\ t[i + 1] \in IdentStart \* \$([A-Za-z_][A-Za-z0-9_]*)
+       ELSE IF i + 1 <= Len(t) /\ t[i + 1] \in IdentStart \* dollar, identifier start, identifier characters (greedy)
          THEN LET e == IdentEnd(t, i + 1) IN
               Replace(SubSeq(t, i, e), SubSeq(t, i + 1, e), env, depth) \o Scan(t, e + 1, env, depth)
        ELSE <<"$">> \o Scan(t, i + 1, env, depth)
@@ -184,8 +184,9 @@ Init == IF Part = "redact" THEN vec \in RedactCases ELSE vec \in ExpandCases
 Next == UNCHANGED vec
 
 \* C35 on the model
-RedactOK == Part = "redact" =>
-  LET cfg == ConfigOf(vec) IN NoSecretRendered(cfg) /\ OriginalUnchanged(cfg) /\ OthersKept(cfg)
+RedactNoSecret      == Part = "redact" => NoSecretRendered(ConfigOf(vec))
+RedactOrigUnchanged == Part = "redact" => OriginalUnchanged(ConfigOf(vec))
+RedactOthersKept    == Part = "redact" => OthersKept(ConfigOf(vec))
 \* C37 on the model
 ExpandOK == Part = "expand" => Impl(vec.toks, vec.env) \in Oracle(vec.toks, vec.env, 1)
 
